@@ -16,7 +16,7 @@ def plan(tier):
              Cond(B, "witness", "witness", 120)]
     # tokens: the producing round-trip harnesses scan everything that was encoded for private material
     p3, n3 = gen.specialise("c03_roundtrip.py", [("roundtrip_layout", [(a,) for a in (0, 3, 9, 13)])], "c12_gen3.py")
-    p4, n4 = gen.specialise("c04_roundtrip.py", [("roundtrip_options", [(a, e) for a, e in ((1, 3), (7, 0), (8, 3), (17, 0))])], "c12_gen4.py")
+    p4, n4 = gen.specialise("c04_roundtrip.py", [("roundtrip_options", [(a, e) for a, e in ((1, 3), (7, 0), (8, 3), (17, 0))]), ("caller_epk", [(a,) for a in (7, 8, 17, 18)])], "c12_gen4.py")
     conds += [Cond(p3, n, "main", T, "JWS serializations contain no private member / octets (%s)" % n) for n in n3]
     conds += [Cond(p4, n, "main", T, "JWE serializations and the epk header contain no private member / octets (%s)" % n) for n in n4]
     meta = {
